@@ -164,6 +164,10 @@ func TLSchemas(thorough bool) []TLSchema {
 				w.decl(fmt.Sprintf("sum%dc%d", n, k), f, fmt.Sprintf("Sum%d", n))
 			}
 		}
+		// vectors whose elements have conditional fields / are multi-constructor values: consecutive elements differ in
+		// which fields are present
+		w.decl("condElem", "mode:# a:mode.0?int b:mode.1?bytes tail:int", "CondElem")
+		w.decl("condHolder", "before:int v:(vector "+w.ns+".condElem) w:(vector "+w.ns+".Sum3) after:long", "CondHolder")
 		w.decl("nest1", "p:"+w.ns+".pair s:"+w.ns+".Sum3", "Nest1")
 		w.decl("nest2", "n:"+w.ns+".nest1 v:(vector "+w.ns+".nest1)", "Nest2")
 		w.decl("nest3", "n:"+w.ns+".nest2 t:"+w.ns+".Sum5 u:(vector "+w.ns+".Sum2)", "Nest3")
